@@ -741,13 +741,13 @@ def robust_map(func, items, nproc, chunk=6, deadline_s=1500):
 
     todo = attempt(list(range(len(items))), chunk, nproc, deadline_s)
     rounds = 0
-    while todo and rounds < 3:
+    while todo and rounds < 2:
         rounds += 1
-        todo = attempt(todo, 1, nproc, max(120, deadline_s // 4))
+        todo = attempt(todo, 1, nproc, 120 + len(todo) // max(1, nproc))
     for i in todo:  # suspects: alone, twice
-        left = attempt([i], 1, 1, 300)
+        left = attempt([i], 1, 1, 90)
         if left:
-            left = attempt([i], 1, 1, 300)
+            left = attempt([i], 1, 1, 90)
         if left:
             results[i] = {"t": items[i].get("t"), "lines": [], "errors": [], "mesh": {}, "skipped": "the interpreter died or hung while replaying this behaviour (twice)", "crashed": True}
     return results
